@@ -6,7 +6,7 @@ import pypose as pp
 from torch import nn
 from hypothesis import strategies as st
 
-from ..core import Sub
+from ..core import Sub, HarnessError as core_HarnessError
 from ..ref import lie as R
 from .. import tu, gen
 from .c07 import rho0, KERNELS
@@ -72,25 +72,45 @@ class Problem:
         return tot
 
 
+def _strided(t):
+    """the same values as a non-contiguous view (every other element of a buffer twice as long)"""
+    buf = torch.zeros((2 * t.shape[0],) + tuple(t.shape[1:]), dtype=t.dtype)
+    buf[::2] = t
+    return buf[::2]
+
+
 class Net(nn.Module):
-    def __init__(self, prob):
+    def __init__(self, prob, strided=False):
         super().__init__()
         self.prob = prob
-        self.theta = nn.Parameter(torch.tensor(prob.theta0))
+        # strided=True: the parameters live in non-contiguous storage (a parameter that is a slice / transpose of a bigger tensor).
+        # Updating and RESTORING such a parameter through reshape(-1) / view(-1) of its data writes into a temporary (seed C08e).
+        lay = _strided if strided else (lambda t: t)
+        self.strided = strided
+        if strided:
+            # a genuinely 2-D non-contiguous parameter: the transpose of a (2, n) buffer; column 0 is theta, column 1 is a spectator
+            # with zero Jacobian (a 1-D strided view would not do: reshape(-1) / view(-1) of a 1-D tensor is the tensor itself)
+            base = torch.stack([torch.tensor(prob.theta0), torch.full((len(prob.theta0),), 0.5, dtype=torch.float64)], 0)
+            self.W = nn.Parameter(base.T)
+        else:
+            self.theta = nn.Parameter(torch.tensor(prob.theta0))
         if prob.gkind:
-            self.X = pp.Parameter(pp.LieTensor(torch.tensor(prob.X0), ltype=tu.LT[prob.gkind]))
+            self.X = pp.Parameter(pp.LieTensor(lay(torch.tensor(prob.X0)), ltype=tu.LT[prob.gkind]))
         self.a, self.c, self.y = torch.tensor(prob.a), torch.tensor(prob.c), torch.tensor(prob.y)
         if prob.gkind:
             self.p, self.q = torch.tensor(prob.p), torch.tensor(prob.q)
 
+    def _theta(self):
+        return self.W[:, 0] if self.strided else self.theta
+
     def forward(self, dummy):
-        r1 = (torch.atan(self.c * (self.a @ self.theta)) - self.y).unsqueeze(-1)
+        r1 = (torch.atan(self.c * (self.a @ self._theta())) - self.y).unsqueeze(-1)
         if self.prob.gkind:
             return r1, self.X.Act(self.p) - self.q
         return r1
 
     def state(self):
-        return (self.theta.detach().clone().numpy(), self.X.tensor().detach().clone().numpy() if self.prob.gkind else None)
+        return (self._theta().detach().clone().numpy(), self.X.tensor().detach().clone().numpy() if self.prob.gkind else None)
 
 
 class ScriptSolver(nn.Module):
@@ -237,7 +257,11 @@ def retract_state(prob, s, D):
 def run_history(case, rec):
     prob = Problem(case["seed"], case["n"], case["gkind"], case["ill"])
     kern, kd = case["kernel"], case["kdelta"]
-    net = Net(prob)
+    strided = (case["seed"] + len(case["script"])) % 3 == 0
+    net = Net(prob, strided=strided)
+    rec.label("params:strided" if strided else "params:contiguous")
+    if strided and net.W.is_contiguous() and net.W.shape[0] > 1:
+        raise core_HarnessError("strided parameter came out contiguous")
     solver = ScriptSolver(case["script"], net)
     solver.raise_at = int(case.get("raise_at", -1))
     lead = min(int(case.get("lead", 0)), case["reject"] + 1)
